@@ -137,6 +137,9 @@ def impl():
         def rec_candidates(self, d):
             cur = self.candidate.current_tracks
             self.rec["cands"] = [[x.src_predicted_instance.uid for x in d[t]] if t in d else [] for t in cur]
+            # the features handed to the scoring function, per track (C10: geometry tie for bboxes + iou)
+            self.rec["cand_feats"] = [[np.array(x.feature, dtype=float).copy() for x in d[t]] if t in d else []
+                                      for t in cur]
 
         class RecTrackerC(RecTracker):
             def update_candidates(self, candidates_list, image):
